@@ -310,7 +310,7 @@ def single_link_programs():
             # the same function applied to arguments that are equal element by element but differ in a type somewhere (list / tuple, int / bool / float,
             # str / bytes, positional / keyword): different invocations with different values
             line = ('c = [same([1, 2]), same((1, 2)), same([[1, 2], [3, 4]]), same([(1, 2), (3, 4)]), same(([1, 2], [3, 4])), same(1), same(True), same(1.0), same("a"), same(b"a"), '
-                    'same({"k": [1]}), same({"k": (1,)}), same(None), same(0), same(False), same([]), same(()), same({}), same([None]), same((None,)), same([0]), same([False]), same("1"), same([1]), same((1,))]\n'
+                    'same({"k": [1]}), same({"k": (1,)}), same(None), same(0), same(False), same([]), same(()), same({}), same([None]), same((None,)), same([0]), same([False]), same("1"), same([1]), same((1,)), same(np.arange(6).reshape(2, 3)), same(np.arange(6).reshape(3, 2).T), same(np.arange(6).reshape(2, 3).T), same(np.arange(6.0).reshape(2, 3)), same(np.arange(6)[::-1]), same(np.arange(12)[::2])]\n'
                     'kw = [use(40, 1), use(41, 0, kw=1), use(42, [1, 2]), use(43, (1, 2)), use(44, 0, kw=[1, 2]), use(45, 0, kw=(1, 2))]\ne = use(21, c)\n')
         elif kind == 'customhash-plain':
             line = 'c = use(20, CustomHash([1, 2], hash_one), other=NoHash(3))\ne = inc(21, c)\n'
